@@ -133,32 +133,25 @@ End KaldiMain.
 
 (** * signals-to-torch-feat-dir (command_line.py:475-617) *)
 
-(* the map file: lines 523-546 *)
-Inductive MapResult : Type :=
-| MapOk (m : list (string * string))
-| MapBadLine (line_no : Z)           (* "not of format <utt_id> <path>": exit 1 *)
-| MapDuplicate (line_no : Z).        (* "already exists as utterance": exit 1 *)
+(* reading the map file is generated: torch_map_loop (gen/CmdLine.v) *)
 
-Fixpoint parse_map (lines : list string) (line_no : Z) (acc : list (string * string)) : MapResult :=
-  match lines with
-  | [] => MapOk acc
-  | line :: rest =>
-    let line := strip line in
-    if String.eqb line EmptyString then parse_map rest (line_no + 1) acc
-    else
-      let ls := split_sp line in
-      if Zlength ls <? 2 then MapBadLine (line_no + 1)
-      else
-        let utt_id := hd EmptyString ls in
-        if mem_str utt_id (map fst acc) then MapDuplicate (line_no + 1)
-        else parse_map rest (line_no + 1) (acc ++ [(utt_id, join_sp (tl ls))])
-  end.
-
-(* the manifest: lines 549-552 *)
-Definition assoc_pop (k : string) (m : list (string * string)) : list (string * string) :=
-  filter (fun kv => negb (String.eqb (fst kv) k)) m.
+(* the manifest (generated: which id a line stands for) *)
 Definition manifest_filter (manifest : list string) (m : list (string * string)) : list (string * string) :=
-  fold_left (fun m line => assoc_pop (strip line) m) manifest m.
+  fold_left (fun m line => dict_pop m (torch_manifest_key line)) manifest m.
+
+(* what a well-formed map file is: the id is non-empty and has no blank; the path
+   starts and ends with a non-blank (it may contain blanks); any amount of blanks
+   / line terminators around an entry, blank lines anywhere *)
+Definition wf_id (u : string) : Prop := u <> EmptyString /\ no_space u = true.
+Definition wf_path (p : string) : Prop :=
+  (exists c, p = String c EmptyString /\ is_space c = false) \/
+  (exists c0 mid c1, p = (String c0 mid ++ String c1 EmptyString)%string /\ is_space c0 = false /\ is_space c1 = false).
+Inductive renders : list string -> list (string * string) -> Prop :=
+| r_nil : renders [] []
+| r_blank l ls es : all_space l = true -> renders ls es -> renders (l :: ls) es
+| r_entry ws1 ws2 u p ls es :
+    all_space ws1 = true -> all_space ws2 = true -> wf_id u -> wf_path p -> renders ls es ->
+    renders ((ws1 ++ (u ++ String sp p) ++ ws2)%string :: ls) ((u, p) :: es).
 
 (* utt2idx: position in the map file *)
 Fixpoint index_of (k : string) (l : list string) (i : Z) : Z :=
@@ -244,9 +237,10 @@ Section TorchMain.
            end),
           opt_config Cfg fs load (ta_preprocess a), opt_config Cfg fs load (ta_postprocess a) with
     | Some cc, Some pc, Some qc =>
-      let seed := match ta_seed a with Some s => s | None => fresh_seed end in
-      match parse_map (ta_map a) 0 [] with
-      | MapBadLine _ | MapDuplicate _ => TExit 1 [] []
+      let seed := torch_seed_choice (ta_seed a) fresh_seed in
+      match torch_map_loop (ta_map a) 0 [] with
+      | MapExit code => TExit code [] []
+      | MapRaise e => TExc e [] []
       | MapOk utt2path_all =>
         match (match cc with
                | None => Some (Some None)
